@@ -19,6 +19,7 @@ META = dict(
     level_note="Trusted: TLC, the Go runtime, the reading of TS 24.008 10.5.1.13 / TS 23.003 / TS 24.501 9.11.3.4 summarised in DESIGN.md Appendix A. Domain: valid identities (spare bits zero, digits decimal); octets that are no valid identity give no verdict (counted). TMSI, MSIN and scheme outputs are sampled (boundaries + seeded random), not enumerated.",
 )
 
+INPUT_KEYS = ("ts", "b", "n")
 W = int(os.environ.get("VERIF_WORKERS", "0")) or None
 SH = int(os.environ.get("VERIF_SHARDS", "0")) or 12
 
@@ -38,6 +39,8 @@ def describe(e):
     if e.get("ots"): out.append("text=" + repr([text(t) for t in e["ots"]]))
     if e.get("ob"): out.append("octets=" + bytes(e["ob"]).hex())
     if e.get("on"): out.append("n=%s" % e["on"])
+    if (e.get("hts"), e.get("hb"), e.get("hn")) != (e.get("ots"), e.get("ob"), e.get("on")) and "hts" in e:
+        out.append("BUT READ AGAIN after %s later calls: text=%r octets=%s n=%s" % (e.get("hc"), [text(t) for t in e["hts"]], bytes(e["hb"]).hex(), e["hn"]))
     return "%s(%s) -> %s" % (e["op"], ", ".join(parts), ", ".join(out) or "nothing")
 
 
@@ -113,6 +116,9 @@ def run(c):
         rop = "AmfIdToModels" if cls == "low-set-bits-unshifted" else op
         obj = dict(event=e, how="harness/cmd/identity redo <event.json> <out.ndjson>, then validate out.ndjson with spec/trace/Trace_C12.tla")
         what = describe(e) + " is not what Identity.tla defines (%s)" % cls
+        if cls == "result-changed-after-return":
+            obj["then_call"] = partner(idx)
+            obj["how"] = "harness/cmd/identity redo <file holding the JSON array [event] + then_call> <out.ndjson>; validate out.ndjson with spec/trace/Trace_C12.tla (first line)"
         if op == "Digest" and cls == "digest-differs":
             # name the failing inputs: log every element of the chunk as ordinary events
             table, chunk = e["n"]
@@ -129,13 +135,23 @@ def run(c):
                 what = "digest of table %d chunk %d differs from the specification's" % (table, chunk)
         return (rop, cls, what, obj)
 
+    def partner(idx):
+        """a later (else earlier) event of the same function with different arguments: run after the repeated call while its result is held"""
+        e = ev_of(idx)
+        def inp(x): return {k: v for k, v in x.items() if k in INPUT_KEYS}
+        for j in list(range(idx + 1, min(idx + 400, len(events)))) + list(range(idx - 1, max(idx - 400, -1), -1)):
+            if ('"op":"%s"' % e["op"]) in events[j][:60]:
+                o = json.loads(events[j])
+                if inp(o) != inp(e) and not o.get("hang"): return [o]
+        return []
+
     def confirm(idx, t):
         e = ev_of(idx)
-        pe = os.path.join(c.scratch, "one.json"); json.dump(e, open(pe, "w"))
+        pe = os.path.join(c.scratch, "one.json"); json.dump([e] + (partner(idx) if e["op"] != "Digest" else []), open(pe, "w"))
         po = os.path.join(c.scratch, "one.ndjson")
         c.run_driver(drv, ["redo", pe, po])
         again = validate_small(read_ndjson(po))
-        return any(tt[3] == t[3] for _, tt in again)
+        return any(i == 0 and tt[3] == t[3] for i, tt in again)
     seen = c.triage(mism, classify, confirm, per_class=2, total=16)
     # ---- binding self-test: corrupt one logged code point of an accepted event, TLC must reject exactly that event
     bad = {i for i, _ in mism}
